@@ -185,8 +185,18 @@ def setup_clock():
 
 
 def json_ok(ev):
+    """serialize_wrapper produces a line for this event (the property needs this for EVERY event)"""
     try:
         flogfile.serialize_wrapper(io.BytesIO(), ev, from_="x", rx_time=0.0)
+        return True
+    except Exception:
+        return False
+
+
+def plain_ok(ev):
+    """the model's e_ok: the first-stage encoding json.dumps(.., cls=ExtendedEncoder) succeeds"""
+    try:
+        json.dumps({"from": "x", "rx_time": 0.0, "d": ev}, cls=flogfile.ExtendedEncoder)
         return True
     except Exception:
         return False
@@ -291,8 +301,8 @@ BAD_CALLS = {
     "level-obj": lambda cid: dict(level=Plain(), cid=cid),
     "facility-list": lambda cid: dict(facility=[1, 2], cid=cid),
     "facility-dict": lambda cid: dict(facility={}, cid=cid),
-    "message-badstr": lambda cid: dict(message=BadStr(), cid=cid),
-    "message-badboth": lambda cid: dict(message=BadBoth(), cid=cid),
+    "message-badstr": lambda cid: dict(message=BadStr(), cid=cid, level=45),    # above every threshold the generator sets
+    "message-badboth": lambda cid: dict(message=BadBoth(), cid=cid, level=45),
     "level-str-badrepr": lambda cid: dict(level="x", cid=cid, x=BadRepr()),
 }
 
